@@ -189,6 +189,27 @@ Proof.
   intro Hpe. apply o_ended_true in Hpe. congruence.
 Qed.
 
+
+Theorem oe_faithful_whitelist_only_members_mint (intended : addr -> Prop) vr s e fp w v stage proof alloc s' ms :
+  o_whitelist s = Some w -> wv_active v = true ->
+  (o_membership_answer vr v proof = Some true -> intended (e_sender e)) ->
+  ostep vr s e fp (Some v) (EMint stage proof alloc) = Ok (s', ms) ->
+  intended (e_sender e).
+Proof.
+  intros Hw Ha Hf H. apply Hf.
+  destruct (oe_active_wl_member_pays_wl_price _ _ _ _ _ _ _ _ _ _ _ Hw Ha H) as [Hm _]. exact Hm.
+Qed.
+
+Theorem oe_nonmember_mint_blames_whitelist_answer (intended : addr -> Prop) vr s e fp w v stage proof alloc s' ms :
+  o_whitelist s = Some w -> wv_active v = true ->
+  ostep vr s e fp (Some v) (EMint stage proof alloc) = Ok (s', ms) ->
+  ~ intended (e_sender e) ->
+  o_membership_answer vr v proof = Some true /\ ~ intended (e_sender e).
+Proof.
+  intros Hw Ha H Hn.
+  destruct (oe_active_wl_member_pays_wl_price _ _ _ _ _ _ _ _ _ _ _ Hw Ha H) as [Hm _]. split; assumption.
+Qed.
+
 (* ---------- inactive whitelist = public rules ---------- *)
 Lemma o_core_public_wl_irrelevant vr s e fp wv wv2 w2 adm rcp :
   o_mint_price (o_with_wl s w2) fp wv2 adm = o_mint_price s fp wv adm ->
